@@ -49,11 +49,25 @@ def call(cs, f, s):
         return s.clip(lower=P.dec(cs['lo']), upper=P.dec(cs['hi']))
     if op == 'f_clip':
         return f.clip(lower=P.dec(cs['lo']), upper=P.dec(cs['hi']))
+    if op == 's_level_add':
+        return s.relabel_level_add(P.dec(cs['v']))
+    if op == 's_level_drop':
+        return s.relabel_level_drop(cs['n'])
+    if op == 's_rehierarch':
+        return s.rehierarch(list(cs['dm']))
+    if op == 'f_level_add':
+        return f.relabel_level_add(**{'index' if cs['axis'] == 0 else 'columns': P.dec(cs['v'])})
+    if op == 'f_level_drop':
+        return f.relabel_level_drop(**{'index' if cs['axis'] == 0 else 'columns': cs['n']})
+    if op == 'f_rehierarch':
+        return f.rehierarch(**{'index' if cs['axis'] == 0 else 'columns': list(cs['dm'])})
     raise ValueError('unknown op %r' % op)
 
 
 OPS = ('s_reindex', 'f_reindex', 's_roll', 's_shift', 'f_roll', 'f_shift', 's_head', 'f_head', 's_duplicated', 's_drop_duplicated',
-       'f_duplicated', 'f_drop_duplicated', 's_isin', 'f_isin', 'f_transpose', 's_clip', 'f_clip')
+       'f_duplicated', 'f_drop_duplicated', 's_isin', 'f_isin', 'f_transpose', 's_clip', 'f_clip',
+       's_level_add', 's_level_drop', 's_rehierarch', 'f_level_add', 'f_level_drop', 'f_rehierarch')
+HIER_OPS = OPS[-6:]
 
 
 def _target(rng, labels):
@@ -110,8 +124,71 @@ def _others(rng, pool):
     return [rng.choice(cand) for _ in range(k)]
 
 
+def _tree_labels(rng, n, depth):
+    '''n distinct tuples of the given depth in a tree order that is NOT sorted: grouped by first appearance.'''
+    alph = [[['s', 'a'], ['s', 'b'], ['s', 'c']], [['i', 1], ['i', 2], ['i', 3]], [['s', 'x'], ['s', 'y']]][:depth]
+    import itertools
+    allt = list(itertools.product(*alph))
+    rows = rng.sample(allt, min(n, len(allt)))
+    def group(rows, d):
+        if d >= depth or len(rows) <= 1:
+            return rows
+        keys = []
+        for r in rows:
+            if r[d] not in keys:
+                keys.append(r[d])
+        out = []
+        for k in keys:
+            out.extend(group([r for r in rows if r[d] == k], d + 1))
+        return out
+    return [['t', [list(x) for x in r]] for r in group(rows, 0)]
+
+
+def _depth_map(rng, depth):
+    import random as _r
+    dm = list(range(depth))
+    rng.shuffle(dm)
+    r = rng.random()
+    if r < 0.06:
+        dm = dm[:-1]
+    elif r < 0.12:
+        dm[0] = dm[-1]
+    return dm
+
+
+def gen_hier(rng, op):
+    depth = rng.choice([2, 2, 3])
+    if op.startswith('s_'):
+        n = rng.randint(1, 6)
+        labs = _tree_labels(rng, n, depth)
+        col = C.rand_column(rng, rng.choice('ifU'), len(labs))
+        s = {'index': labs, 'vals': col['vals'], 'dt': col['dt'], 'name': rng.choice([['none'], ['s', 'nm']])}
+        if op == 's_level_add':
+            return {'op': op, 's': s, 'v': rng.choice([['s', 'X'], ['i', 0]])}, None
+        if op == 's_level_drop':
+            return {'op': op, 's': s, 'n': rng.randint(1, depth - 1)}, None
+        return {'op': op, 's': s, 'dm': _depth_map(rng, depth)}, None
+    axis = rng.choice([0, 0, 1])
+    f = C.rand_frame(rng, 5, 5, kinds=rng.choice(['if', 'ifb', 'iU']), index_kind='str', columns_kind='str', min_rows=1, min_cols=1)
+    if axis == 0:
+        f['index'] = _tree_labels(rng, len(f['index']), depth)
+        for c in f['cols']:
+            c['vals'] = c['vals'][:len(f['index'])]
+    else:
+        f['columns'] = _tree_labels(rng, len(f['columns']), depth)
+        f['cols'] = f['cols'][:len(f['columns'])]
+    lay = C.rand_layout(rng, f)
+    if op == 'f_level_add':
+        return {'op': op, 'f': f, 'axis': axis, 'v': rng.choice([['s', 'X'], ['i', 0]])}, lay
+    if op == 'f_level_drop':
+        return {'op': op, 'f': f, 'axis': axis, 'n': rng.randint(1, depth - 1)}, lay
+    return {'op': op, 'f': f, 'axis': axis, 'dm': _depth_map(rng, depth)}, lay
+
+
 def gen_case(rng):
     op = rng.choice(OPS)
+    if op in HIER_OPS:
+        return gen_hier(rng, op)
     ik = rng.choice(['str', 'int', 'intshift'])
     if op.startswith('s_'):
         if op in ('s_duplicated', 's_drop_duplicated'):
